@@ -342,6 +342,15 @@ func c09Variants(x ap.Item, f vocab.Field) (out []c09Variant) {
 			fv.Set(reflect.ValueOf(fv.Interface().(time.Time).Add(-time.Second)))
 			return true
 		})
+		// another instant within the same second is another instant
+		with("instant +1ns", func(fv reflect.Value) bool {
+			fv.Set(reflect.ValueOf(fv.Interface().(time.Time).Add(time.Nanosecond)))
+			return true
+		})
+		with("instant +250ms", func(fv reflect.Value) bool {
+			fv.Set(reflect.ValueOf(fv.Interface().(time.Time).Add(250 * time.Millisecond)))
+			return true
+		})
 	case vocab.KDur:
 		with("duration +3s", func(fv reflect.Value) bool {
 			fv.SetInt(fv.Int() + int64(3*time.Second))
